@@ -581,8 +581,8 @@ def plan(tier, seed):
     # quick is sized for the verification host (forked injections ~0.1 s each and not scaling over workers, threaded
     # hashing inside update()); thorough keeps the full sizes
     if tier == "quick":
-        return [{"task": "smoke"}] + _interleave([{"task": "gen", "examples": 60} for _ in range(8)],
-                                                  [{"task": "crash", "examples": 16} for _ in range(4)])
+        return [{"task": "smoke"}] + _interleave([{"task": "gen", "examples": 50} for _ in range(8)],
+                                                  [{"task": "crash", "examples": 12} for _ in range(4)])
     return [{"task": "smoke"}] + _interleave([{"task": "gen", "examples": 6000} for _ in range(16)],
                                               [{"task": "crash", "examples": 1500} for _ in range(16)])
 
@@ -593,9 +593,9 @@ def run_task(ctx, task, **kw):
         for c in smoke_cases():
             check_case(ctx, c, env)
     elif task == "gen":
-        core.hyp_run(ctx, cases(False), lambda c: None if ctx.out_of_time() else check_case(ctx, c, env), kw["examples"], chunk=60)
+        core.hyp_run(ctx, cases(False), lambda c: None if ctx.out_of_time() else check_case(ctx, c, env), kw["examples"], chunk=50)
     elif task == "crash":
-        core.hyp_run(ctx, cases(True), lambda c: None if ctx.out_of_time() else check_case(ctx, c, env), kw["examples"], chunk=16, seed_salt=7)
+        core.hyp_run(ctx, cases(True), lambda c: None if ctx.out_of_time() else check_case(ctx, c, env), kw["examples"], chunk=12, seed_salt=7)
     else:
         raise core.HarnessError(f"unknown task {task}")
 
